@@ -9,6 +9,7 @@ import (
 	"sync"
 	"testing"
 
+	"github.com/ulikunitz/lz"
 	"pgregory.net/rapid"
 )
 
@@ -129,6 +130,7 @@ func c13Opts() histOpts {
 	o.maxOps = 16
 	o.resetNil, o.resetDat = 1, 2
 	o.tinyPct = 30
+	o.zeroPct = 50
 	return o
 }
 
@@ -144,6 +146,13 @@ func genResetCase(t *rapid.T, kind string) (ResetCase, *parserExec, bool) {
 		if cfg.HashBits1 == 0 {
 			cfg.HashBits1 = 8
 		}
+	}
+	if kind == "BUP" && rapid.Bool().Draw(t, "smallBuckets") {
+		// few, small buckets and a hash over more than the minimum match:
+		// an entry that survives Reset is found again
+		cfg.InputLen = rapid.IntRange(4, 6).Draw(t, "bupInputLen")
+		cfg.HashBits = rapid.IntRange(1, 3).Draw(t, "bupHashBits")
+		cfg.BucketSize = rapid.IntRange(2, 4).Draw(t, "bupBucket")
 	}
 	x, err := newParserExec(cfg)
 	if err != nil {
@@ -378,8 +387,16 @@ func init() {
 	replayers["C13"] = func(raw json.RawMessage) (string, bool, error) {
 		var probe struct {
 			Parsers *json.RawMessage `json:"parsers"`
+			H2enum  *json.RawMessage `json:"h2enum"`
 		}
 		_ = json.Unmarshal(raw, &probe)
+		if probe.H2enum != nil {
+			var c c13EnumCase
+			if err := json.Unmarshal(raw, &c); err != nil {
+				return "", false, err
+			}
+			return checkC13Enum(c)
+		}
 		if isWrapCase(raw) {
 			var c WrapCase
 			if err := json.Unmarshal(raw, &c); err != nil {
@@ -475,4 +492,156 @@ func checkWrapReset(c WrapCase) (msg string, bad bool, x *wrapExec, err error) {
 		return "a WrappedParser that was used before Reset emits different blocks than a new one: " + why, true, x, nil
 	}
 	return "", false, x, nil
+}
+
+// ---------------------------------------------------------------- small-scope enumeration
+
+// c13EnumCase is the replay form of one enumerated pair.
+type c13EnumCase struct {
+	Cfg PCfg  `json:"cfg"`
+	H1  Bytes `json:"h1"`
+	H2  Bytes `json:"h2enum"`
+}
+
+type enumBlock struct {
+	n    int
+	seqs string
+	lits string
+}
+
+func enumParseAll(p lz.Parser, data []byte, out []enumBlock) []enumBlock {
+	out = out[:0]
+	if _, err := p.Write(data); err != nil {
+		return append(out, enumBlock{-1, "write: " + err.Error(), ""})
+	}
+	var blk lz.Block
+	for i := 0; i < len(data)+2; i++ {
+		n, err := p.Parse(&blk, 0)
+		if err != nil {
+			break
+		}
+		out = append(out, enumBlock{n, fmt.Sprint(blk.Sequences), string(blk.Literals)})
+	}
+	return out
+}
+
+func sameEnumBlocks(a, b []enumBlock) bool {
+	if len(a) != len(b) {
+		return false
+	}
+	for i := range a {
+		if a[i] != b[i] {
+			return false
+		}
+	}
+	return true
+}
+
+// checkC13Enum: one parser, used for H1, Reset(nil), used for H2, against a new
+// parser given H2.
+func checkC13Enum(c c13EnumCase) (string, bool, error) {
+	p, err := c.Cfg.LZ().NewParser()
+	if err != nil {
+		return "", false, errConfigRejected
+	}
+	enumParseAll(p, c.H1, nil)
+	if err := p.Reset(nil); err != nil {
+		return "Reset(nil) failed: " + err.Error(), true, nil
+	}
+	got := enumParseAll(p, c.H2, nil)
+	q, _ := c.Cfg.LZ().NewParser()
+	want := enumParseAll(q, c.H2, nil)
+	if !sameEnumBlocks(got, want) {
+		return fmt.Sprintf("after %q and Reset the parser emits %v for %q; a new parser emits %v", []byte(c.H1), got, []byte(c.H2), want), true, nil
+	}
+	return "", false, nil
+}
+
+// TestC13Enum enumerates, for a few tiny configurations per kind, every pair
+// (H1, H2) of strings over {0x00, 'a'} up to a length: the parser that parsed
+// H1 and was Reset must emit for H2 what a new parser emits. 0x00 is the value
+// of an empty hash slot, which is where leftovers hide.
+func TestC13Enum(t *testing.T) {
+	st := statsFor("C13")
+	cnt := 0
+	h1max, h2max := envInt("VERIF_C13_H1", 7), envInt("VERIF_C13_H2", 9)
+	cfgs := []PCfg{
+		{Kind: "HP", InputLen: 4, HashBits: 1, BufferSize: 64, WindowSize: 64, BlockSize: 64},
+		{Kind: "HP", InputLen: 3, HashBits: 2, BufferSize: 64, WindowSize: 64, BlockSize: 5},
+		{Kind: "BHP", InputLen: 4, HashBits: 1, BufferSize: 64, WindowSize: 64, BlockSize: 64},
+		{Kind: "DHP", InputLen1: 3, InputLen2: 5, HashBits1: 1, HashBits2: 1, BufferSize: 64, WindowSize: 64, BlockSize: 64},
+		{Kind: "DHP", InputLen1: 2, InputLen2: 3, HashBits1: 2, HashBits2: 1, BufferSize: 64, WindowSize: 64, BlockSize: 6},
+		{Kind: "BDHP", InputLen1: 4, InputLen2: 6, HashBits1: 1, HashBits2: 1, BufferSize: 64, WindowSize: 64, BlockSize: 64},
+		{Kind: "BUP", InputLen: 4, HashBits: 1, BucketSize: 2, BufferSize: 64, WindowSize: 64, BlockSize: 64},
+		{Kind: "BUP", InputLen: 4, HashBits: 2, BucketSize: 3, BufferSize: 64, WindowSize: 64, BlockSize: 64},
+		{Kind: "BUP", InputLen: 5, HashBits: 1, BucketSize: 4, BufferSize: 64, WindowSize: 64, BlockSize: 7},
+	}
+	saCfgs := []PCfg{
+		{Kind: "GSAP", MinMatchLen: 2, BufferSize: 32, WindowSize: 32, BlockSize: 32},
+		{Kind: "OSAP", MinMatchLen: 2, MaxMatchLen: 4, BufferSize: 32, WindowSize: 32, BlockSize: 32},
+	}
+	run := func(cfg PCfg, m1, m2 int) {
+		// what a new parser emits for every H2
+		var h2s [][]byte
+		enumStrings(2, m2, func(s []byte) {
+			b := make([]byte, len(s))
+			for i, c := range s {
+				if c == 1 {
+					b[i] = 'a'
+				}
+			}
+			h2s = append(h2s, b)
+		})
+		want := make([][]enumBlock, len(h2s))
+		for i, h2 := range h2s {
+			q, err := cfg.LZ().NewParser()
+			if err != nil {
+				t.Fatalf("config %v rejected: %v", cfg, err)
+			}
+			want[i] = enumParseAll(q, h2, nil)
+		}
+		p, _ := cfg.LZ().NewParser()
+		var scratch, got []enumBlock
+		failed := false
+		enumStrings(2, m1, func(s []byte) {
+			if failed {
+				return
+			}
+			h1 := make([]byte, len(s))
+			for i, c := range s {
+				if c == 1 {
+					h1[i] = 'a'
+				}
+			}
+			for i, h2 := range h2s {
+				cnt++
+				_ = p.Reset(nil)
+				scratch = enumParseAll(p, h1, scratch)
+				_ = p.Reset(nil)
+				got = enumParseAll(p, h2, got)
+				if !sameEnumBlocks(got, want[i]) {
+					c := c13EnumCase{Cfg: cfg, H1: cloneBytes(h1), H2: cloneBytes(h2)}
+					msg, bad, _ := checkC13Enum(c)
+					if !bad {
+						// the chain of earlier pairs left the state behind
+						msg = fmt.Sprintf("in a chain of Reset-separated uses the parser emits %v for %q after %q; a new parser emits %v", got, h2, h1, want[i])
+					}
+					recordFailure("C13", "enum-"+cfg.Kind, c, msg)
+					t.Errorf("C13 violated (enumeration, %s): %s", cfg.Kind, msg)
+					failed = true
+					return
+				}
+			}
+		})
+		st.class("enumerated:" + cfg.Kind)
+	}
+	for _, cfg := range cfgs {
+		run(cfg, h1max, h2max)
+	}
+	for _, cfg := range saCfgs {
+		run(cfg, minInt(h1max, 5), minInt(h2max, 6))
+	}
+	st.evalN(cnt, "enumerated")
+	st.note("enumerated all pairs (H1, H2) over {0x00,'a'} with |H1| <= %d, |H2| <= %d for %d tiny hash parser configurations (<= 5 / <= 6 for GSAP, OSAP)", h1max, h2max, len(cfgs))
+	fmt.Printf("ENUM-DONE %d\n", cnt)
 }
